@@ -169,10 +169,20 @@ let mut_run ins steps =
   let epoch = ref 0 in
   let es () = List.init n (fun _ -> BZ.of_int !epoch) in
   let observe () = [OVerify; OProbe (AOther, n_outputs, es (), kinds); ORound] in
+  (* an input that merge_transaction brings is not part of the transaction before its mg step: until then it stands for
+     the OTHER transaction, which is signed on its own for whatever it is merged into - the model keeps it freshly signed
+     at every digest change, so that a step that re-signs one named input leaves stale only inputs that are really there *)
+  let n0 = List.length toks in
+  let merged = ref 0 in
+  let absent () = List.filter (fun i -> i >= n0 + !merged) idx in
   let step s = match String.split_on_char '/' s with
     | "ut" :: _ -> observe ()
     | ["su"; i] -> sign_op true (int_of_string i) :: observe ()
-    | ("lrb" | "lrt") :: i :: _ -> incr epoch; let e = OEpochs (es ()) in e :: sign_op true (int_of_string i) :: observe ()
+    | ("lrb" | "lrt") :: i :: _ ->
+        incr epoch;
+        let e = OEpochs (es ()) in
+        (e :: sign_op true (int_of_string i) :: List.map (sign_op true) (absent ())) @ observe ()
+    | "mg" :: _ -> incr merged; incr epoch; let e = OEpochs (es ()) in (e :: List.map (sign_op true) idx) @ observe ()
     | _ -> incr epoch; let e = OEpochs (es ()) in (e :: List.map (sign_op true) idx) @ observe () in
   let ops = List.map (sign_op false) idx @ List.concat_map step steps in
   let verdicts = List.filter_map (function
